@@ -548,6 +548,13 @@ def run_case(case):
         qu = r.choice(["mol", "mmol", "µmol", "nmol", "pmol", "fmol", "molecule"])
         tu = r.choice(["h", "min", "s", "ms", "µs"])
         vals = [0.0 if r.random() < 0.15 else r.uniform(0, 500) * 10 ** r.randint(-3, 3) for _ in range(ns * S * G)]
+        if r.random() < 0.08:
+            # amounts of extreme but finite magnitude (spreading a value over n members is value / n: nothing to overflow or to
+            # lose to subnormals, whatever the cell volumes are in their units)
+            e_ = r.choice([-1, 1]) * r.uniform(295, 303)
+            vals = [0.0 if r.random() < 0.15 else r.uniform(1, 9) * 10.0 ** e_ for _ in range(ns * S * G)]
+            qu = "molecule"
+            cnt["uncoarsegrain_extreme_amounts"] = cnt.get("uncoarsegrain_extreme_amounts", 0) + 1
         t0 = r.uniform(0, 5)
         times = [t0]
         for _ in range(ns - 1):
